@@ -852,7 +852,112 @@ func runInject(r *rec, g *rng, tier, what, replay, out string, extra map[string]
 		os.Chdir(cwd)
 		os.RemoveAll(root)
 	}
-	extra["sessions"] = nsess
+	// ---- small scope, exhaustively: EVERY sequence of up to 2 (thorough: 3) steps over Add / Remove of a file, its
+	// hard link, a symlink to it, a directory, a symlink to it, a missing path, a path through a file, an unclean
+	// spelling, and the file-system steps that make listed paths name other files (C04's quantifier: "exhaustively
+	// for all sequences up to a bounded length, randomly beyond"); WatchList after every sequence
+	type xstep struct {
+		name string
+		do   func(s *session, u *universe)
+	}
+	addOf := func(rel string) xstep {
+		return xstep{"Add(" + rel + ")", func(s *session, u *universe) { s.opAdd(r, filepath.Join(u.root, rel), 0x1f, false) }}
+	}
+	rmOf := func(rel string) xstep {
+		return xstep{"Remove(" + rel + ")", func(s *session, u *universe) { s.opRemove(r, filepath.Join(u.root, rel)) }}
+	}
+	alphabet := []xstep{addOf("f0"), addOf("h0"), addOf("lf"), addOf("d0"), addOf("l0"), addOf("missing"), addOf("f0/x"),
+		{"Add(./d0/../d0/)", func(s *session, u *universe) { s.opAdd(r, "./d0/../d0/", 0x1f, false) }},
+		rmOf("f0"), rmOf("h0"), rmOf("lf"), rmOf("d0"), rmOf("l0"), rmOf("missing"),
+		{"unlink f0", func(s *session, u *universe) { os.Remove(filepath.Join(u.root, "f0")); s.noteFS(r, "unlink f0") }},
+		{"recreate f0", func(s *session, u *universe) {
+			os.Remove(filepath.Join(u.root, "f0"))
+			os.WriteFile(filepath.Join(u.root, "f0"), []byte("n"), 0o644)
+			s.noteFS(r, "unlink f0; create f0")
+		}},
+		{"retarget lf->f1", func(s *session, u *universe) {
+			os.Remove(filepath.Join(u.root, "lf"))
+			os.Symlink(filepath.Join(u.root, "f1"), filepath.Join(u.root, "lf"))
+			s.noteFS(r, "retarget lf -> f1")
+		}},
+		{"retarget l0->d1", func(s *session, u *universe) {
+			os.Remove(filepath.Join(u.root, "l0"))
+			os.Symlink("d1", filepath.Join(u.root, "l0"))
+			s.noteFS(r, "retarget l0 -> d1")
+		}},
+	}
+	depth := 2
+	if tier == "thorough" {
+		depth = 3
+	}
+	if !(what == "C04" || what == "C12" || what == "C09" || tier == "thorough") {
+		depth = 0 // the watch-set properties own this enumeration; the others read the random sessions and the corpus
+	}
+	var seqs [][]int
+	var gen func(prefix []int)
+	gen = func(prefix []int) {
+		if len(prefix) > 0 {
+			seqs = append(seqs, append([]int(nil), prefix...))
+		}
+		if len(prefix) == depth {
+			return
+		}
+		for i := range alphabet {
+			gen(append(prefix, i))
+		}
+	}
+	if depth > 0 {
+		gen(nil)
+	}
+	nx := 0
+	for xi, seq := range seqs {
+		if len(seq) != depth { // shorter sequences are prefixes of longer ones: WatchList is compared after every op line anyway
+			continue
+		}
+		si := nsess + xi
+		if only >= 0 && si != only {
+			continue
+		}
+		root, err := os.MkdirTemp("", "fsnverif-inx")
+		check(err)
+		root, _ = filepath.EvalSymlinks(root)
+		u := mkUniverse(root)
+		check(os.Chdir(root))
+		s := newSession(root, 64)
+		s.faithful = true
+		s.sentinel = filepath.Join(root, ".sentinel")
+		startSeq := r.seq
+		seen := map[string]bool{}
+		var names []string
+		for _, k := range seq {
+			names = append(names, alphabet[k].name)
+		}
+		s.report = func(prop, sig, what string, detail map[string]interface{}) {
+			if seen[sig] {
+				return
+			}
+			seen[sig] = true
+			detail["session"], detail["seed"], detail["tier"], detail["first_seq"], detail["exhaustive_sequence"] = si, base, tier, startSeq+1, names
+			b, _ := json.Marshal(map[string]interface{}{"property": prop, "signature": sig, "what": what, "detail": detail})
+			mon.Write(append(b, '\n'))
+		}
+		hangCtx.Store("session", si)
+		r.emit("reset", fmt.Sprintf("reset session=%d exhaustive=%s", si, strings.ReplaceAll(strings.Join(names, ";"), " ", "_")), "ok")
+		s.opAdd(r, s.sentinel, 0x1f, false)
+		if wd, ok := s.wdOf(s.sentinel, false); ok {
+			s.sentWd = wd
+		}
+		for _, k := range seq {
+			alphabet[k].do(s, u)
+			s.opWatchList(r)
+		}
+		s.close()
+		os.Chdir(cwd)
+		os.RemoveAll(root)
+		nx++
+	}
+	r.notes[fmt.Sprintf("exhaustive-sequences-depth-%d", depth)] += nx
+	extra["sessions"] = nsess + nx
 }
 
 func runSession(r *rec, g *rng, s *session, u *universe, steps int, mon *os.File, si int, seed uint64, tier string, startSeq int) {
